@@ -211,7 +211,7 @@ def run(tier, **kw):
     ])
     rep.assumptions = [
         "NLV > 0 in every start state; quotes present for every contract (missing quotes are C13)",
-        "whole-lot mode: when the threshold verdict differs between the pre- and post-truncation imbalance weight both outcomes are accepted",
+        "whole-lot mode: the threshold is a condition on the imbalance itself (before truncation), as the statement words it; the traded quantity is its truncation",
         "inexact palettes: a threshold within 1e-9 of the imbalance weight accepts both outcomes; exact at/just-below/just-above cases only on power-of-two palettes where every float operation is exact in any evaluation order",
     ]
     return rep.finish(replay)
